@@ -5,7 +5,9 @@
 `visits …same…` → number of paint nodes visited by the model
 `v0 fg first num nL (idx gid|-1)*` → `<result> <events…>`
 `enter id n p0 … p(n-1)` → `ok` | `err:Cycle` | `err:Depth`
-`paint.bytes <colr hex> fg cm gid`  → as `paint`, the whole model evaluated from the COLR table BYTES
+`paint.bytes <colr hex> fg cm gid`  → as `paint`, the whole model evaluated from the COLR table BYTES, with
+   payloads: `B:xmin:ymin:xmax:ymax` (clip box, font units), `F:<brush>` / `g<gid>:<0|1>:<brush>` with
+   `<brush>` = `0:palette:alpha·2^14` (solid) | `kind:extend:#stops` (kind 1 linear, 2 radial, 3 sweep)
 `visits.bytes <colr hex> fg cm gid` → as `visits`
 `v0.bytes <colr hex> fg gid`        → as `v0` (`noglyph` when there is no v0 base glyph)
 `node.bytes <colr hex> pos`         → `none` | node kind and fields as in `paint` (`resolve_paint` from bytes)
